@@ -44,19 +44,24 @@ MARGIN = 4
 FLOW_LIMIT = 255                      # the property's number; cross-checked with Gen/Consts.v FLOW_LEVEL_MAX
 BLOCK_SHAPES = ["seq", "map", "qkey", "alt", "mix"]
 FLOW_SHAPES = ["fseq", "fmap"]
-SHAPES = BLOCK_SHAPES + FLOW_SHAPES
+# flow-only inputs that nest without raising the scanner's flow_level above 1 (the 255 limit never triggers)
+BYPASS_SHAPES = ["qflow", "colons"]
+SHAPES = BLOCK_SHAPES + FLOW_SHAPES + BYPASS_SHAPES
 APIS = ["iter", "load", "drop", "emit"]
 AUX_APIS = ["pdrop", "pemit"]         # drop / emit of a tree built WITHOUT Parser::load: their own thresholds
 RECURSIVE_APIS = ["load", "drop", "emit", "pdrop", "pemit"]
 SHAPE_TEXT = {"seq": "'- ' per level", "map": "'a:' + newline per level, indentation growing by one",
               "qkey": "'? ' per level", "alt": "alternating '- ' / '? '", "fseq": "'[' per level, closed",
-              "fmap": "'{a: ' per level, closed", "mix": "'- ' levels around a core of (at most) 100 '[' levels"}
+              "fmap": "'{a: ' per level, closed", "mix": "'- ' levels around a core of (at most) 100 '[' levels",
+              "qflow": "'[ ? ] , ' per level then d closing ']' (d nested flow sequences at scanner flow level 1)",
+              "colons": "'[' + ' :' per level + ']' (d nested synthetic flow mappings at scanner flow level 1; ends in a parse error)"}
 # the `map` input has d*(d+5)/2 bytes (10^5 levels = 5 GB): capped
 MAP_CAP = {"quick": 20000, "thorough": 40000}
 # inputs whose recursive consumers are quadratic in time (every level re-hashes its whole key): aux apis capped
 SLOW_CAP = 12000
 QUICK_DEPTHS = [1, 10, 100, 255, 256, 257, 1000, 3000, 10000, 30000, 100000]
 THOROUGH_EXTRA = [2, 3, 5, 20, 50, 200, 254, 258, 300, 500, 2000, 5000, 7000, 15000, 20000, 25000, 40000, 50000, 70000]
+QFLOW_PEMIT_CAP = 40000
 TIMEOUT = 300
 POOL = 16
 
@@ -78,6 +83,10 @@ def build_input(shape, d):
     if shape == "mix":
         f = min(d, 100)
         return "- " * (d - f) + "[" * f + "a" + "]" * f
+    if shape == "qflow":
+        return "[ ? ] , " * (d - 1) + ("[ ? ] " if d else "") + "]" * d
+    if shape == "colons":
+        return "[" + " :" * d + "]"
     raise ValueError(shape)
 
 
@@ -151,6 +160,8 @@ def scenario_depths(tier, shape, api, depths):
         cap = MAP_CAP[tier]
     if api in AUX_APIS and shape in ("qkey", "alt"):
         cap = SLOW_CAP
+    if api == "pemit" and shape == "qflow":
+        cap = QFLOW_PEMIT_CAP        # the block rendering of the tree is quadratic in the depth (900 MB at 30000)
     ds = sorted(set(min(d, cap) if cap else d for d in depths))
     return ds
 
@@ -196,7 +207,8 @@ def judge(res, o, known, hits):
                               case=case, observation=o)
     if kind == "OK" and api in ("iter", "load"):
         rd = reported_depth(o["verdict"])
-        if rd != depth:
+        # qflow / colons: the innermost "?" / ":" opens one more (mapping) level inside the d-th collection
+        if rd != (depth + 1 if shape in BYPASS_SHAPES else depth):
             res.add_tie_break("the generated input does not have the intended nesting depth", case=case, observation=o)
 
 
@@ -282,6 +294,37 @@ def tie_checks(res, tier):
             res.add_tie_break("correspondence: parser model on the real tokens != real events", depth=d, model=kinds(mt)[:300], impl=ek[:300])
         if kinds(mf) != ek:
             res.add_tie_break("correspondence: model pipeline != real events", depth=d, model=kinds(mf)[:300], impl=ek[:300])
+    # the flow-limit bypass families: the real scanner's tokens are the ones of the Coq witness (qflow_tokens), the
+    # parser model on them / the model pipeline give the implementation's events, and those nest d (+1) deep
+    bd = [1, 2, 3, 4, 5, 6, 255, 256, 300]
+    btexts = [build_input("qflow", d) for d in bd] + [build_input("colons", d) for d in bd]
+    blines = [enc(x) for x in btexts]
+    btoks = _retry(lambda: run_hx(["tokens"], blines))
+    bevs = _retry(lambda: run_hx(["events", "str"], blines))
+    bm_tok = _retry(lambda: run_mx(["parse-tokens"], btoks))
+    bm_full = _retry(lambda: run_mx(["events", "str"], blines))
+    for i, d in enumerate(bd + bd):
+        n += 1
+        sh = "qflow" if i < len(bd) else "colons"
+        ek = kinds(bevs[i])
+        if sh == "qflow":
+            tk_, tfin = split_line(btoks[i])
+            got = [x.rsplit("@", 1)[0] for x in tk_]
+            want = ["SS"] + ["FSS", "K", "FSE", "FEN"] * (d - 1) + ["FSS", "K", "FSE"] + ["FSE"] * d + ["SE"]
+            if got != want or tfin != "END":
+                res.add_tie_break("the real scanner's tokens for the qflow text of depth %d are not the Coq witness family qflow_tokens" % d,
+                                  got=";".join(got)[:300], want=";".join(want)[:300])
+            want_ev = ["SS", "DS0"] + ["QS,0", "MS,0", "SC,0", "SC,0", "ME"] * d + ["QE"] * d + ["DE", "SE"]
+            if ek != ";".join(want_ev) + "|OK":
+                res.add_tie_break("the implementation's events for the qflow text of depth %d are not d nested sequences" % d, got=ek[:300])
+        else:
+            opens = ek.count("MS,0")
+            if opens != d or not (ek.endswith("|ERR") or d == 1):
+                res.add_tie_break("the implementation's events for '[' + ' :'*%d + ']' are not d nested mappings followed by an error" % d, got=ek[:300])
+        if kinds(bm_tok[i]) != ek:
+            res.add_tie_break("correspondence (%s): parser model on the real tokens != real events" % sh, depth=d, model=kinds(bm_tok[i])[:300], impl=ek[:300])
+        if kinds(bm_full[i]) != ek or fin_pos(split_line(bm_full[i])[1]) != fin_pos(split_line(bevs[i])[1]):
+            res.add_tie_break("correspondence (%s): model pipeline != real events" % sh, depth=d, model=kinds(bm_full[i])[:300], impl=ek[:300])
     # flow limit: model and implementation, verdict and position
     fl = [1, 2, 254, 255, 256, 257, 300]
     ftexts = [build_input(sh, d) for sh in FLOW_SHAPES for d in fl]
@@ -322,7 +365,7 @@ def check_C11(tier, seed):
     depths = sorted(set(depths + extra))
     res.coverage["input_distribution"] = dict(
         shapes=SHAPE_TEXT, apis=APIS + AUX_APIS, depths=depths, seeded_extra_depths=extra,
-        caps=dict(map=MAP_CAP[tier], aux_apis_on_qkey_alt=SLOW_CAP),
+        caps=dict(map=MAP_CAP[tier], aux_apis_on_qkey_alt=SLOW_CAP, pemit_on_qflow=QFLOW_PEMIT_CAP),
         profiles=["debug"] + (["release"] if tier == "thorough" else []), stack="8 MiB thread (explicit)")
     res.coverage["known_findings_file"] = dict(path=os.path.relpath(KNOWN_FILE, core.VERIF), entries=len(known), margin=MARGIN)
     if res.harness_ok:
@@ -335,7 +378,7 @@ def check_C11(tier, seed):
             for prof in profiles:
                 obs += sweep(prof, tier, depths, SHAPES, APIS, pool)
                 # the aux apis only where they add information: block shapes, from 1000 levels on
-                obs += sweep(prof, tier, [d for d in depths if d >= 1000], BLOCK_SHAPES, AUX_APIS, pool)
+                obs += sweep(prof, tier, [d for d in depths if d >= 1000], BLOCK_SHAPES + ["qflow"], AUX_APIS, pool)
             # thresholds: refine every (largest surviving, smallest aborting) bracket
             rel = 0.05 if tier == "quick" else 0.004
             todo = []
